@@ -111,6 +111,7 @@ class Tol:
         self.scale = max(1.0, scale)
         self.sticky = 0          # in-band angles baked into the arm's stored model (base, tool, joint homes)
         self.step = 0            # in-band joint values of the current state
+        self.ambiguous = False   # two admissible tools could not be told apart at 1e-7 (see match_tool)
 
     def add_sticky(self, *angles):
         self.sticky += count_band(*angles)
@@ -121,7 +122,9 @@ class Tol:
     @property
     def base(self):
         k = self.sticky + self.step
-        return TOL if k == 0 else max(LOOSE, 1.5e-6 * k)
+        if k == 0:
+            return LOOSE if self.ambiguous else TOL
+        return max(LOOSE, 1.5e-6 * k)
 
     def pose_ok(self, T, Tref):
         dr, dp = pose_diff(T, Tref)
@@ -180,7 +183,7 @@ def match_tool(st_, T, tol, what, th=None):
                         "diff %.3g, translation diff %.3g; tol %.1g, scale %.3g; %d candidate(s))"
                         % (what, worst[0], worst[1], tol.base, tol.scale, len(st_.Ms)))
     if len(keep) > 1:
-        tol.sticky += 1             # two readings indistinguishable here: do not let the choice cost 1e-7
+        tol.ambiguous = True        # two readings indistinguishable here: do not let the choice cost 1e-7
     st_.Ms = keep
 
 
@@ -227,7 +230,10 @@ def observe(arm, st_, tol, ctx, step, expect_theta=True):
             continue
         Ti = as_T(JT[1 + i], tag + " getJointTransforms[%d]" % (1 + i))
         expect_pose(Ti, frames[i], tol, tag + " joint frame %d vs base . PoE_{<=%d} . joint home" % (i, i))
-    if len(JT) == n + 2 and m.kind != "urdf" and not st_.joint_taint[n - 1]:
+    # The entry before the tool is the last joint's frame -- documented to exist only when the tool is not
+    # coincident with the last joint; when it is coincident its content is not specified (and not compared).
+    off_joint = n and float(np.linalg.norm(st_.Ms[0][:3, 3] - m.H[n - 1][:3, 3])) > 1e-6
+    if len(JT) == n + 2 and m.kind != "urdf" and off_joint and not st_.joint_taint[n - 1]:
         Tl = as_T(JT[-2], tag + " getJointTransforms[-2]")
         expect_pose(Tl, frames[n - 1], tol, tag + " last joint frame (entry before the tool) vs model")
     # the state must not have been changed by looking at it
@@ -531,7 +537,6 @@ op_fk = st.fixed_dictionaries({"op": st.just("fk"), "th": A.theta_codes()})
 op_fk_none = st.just({"op": "fk_none"})
 _goals = st.one_of(
     st.fixed_dictionaries({"kind": st.just("reach"), "th": A.theta_codes()}),
-    st.fixed_dictionaries({"kind": st.just("reach"), "th": A.theta_codes()}),
     st.fixed_dictionaries({"kind": st.just("pose"), "pose": A.poses6(maxnorm=8.0, tiny=False)}))
 op_ik = st.fixed_dictionaries({"op": st.just("ik"), "protect": st.booleans(), "goal": _goals,
                                "init": st.one_of(st.none(), A.theta_codes()), "check": st.booleans(), "seed": _seed})
@@ -554,8 +559,9 @@ OPS_ALL = st.one_of(op_fk, op_fk, op_fk_none, op_move, op_move_stat, op_sethome,
 
 
 def histories(ops, kinds=("sixr", "urdf", "random"), min_size=1, max_size=10):
-    return st.fixed_dictionaries({"arm": A.arm_specs(kinds=kinds),
-                                  "ops": st.lists(ops, min_size=min_size, max_size=max_size)})
+    # the length is drawn first (uniform), so that long histories are as frequent as short ones
+    ops_list = st.integers(min_size, max_size).flatmap(lambda k: st.lists(ops, min_size=k, max_size=k))
+    return st.fixed_dictionaries({"arm": A.arm_specs(kinds=kinds), "ops": ops_list})
 
 
 def c_fresh(case, ctx):
